@@ -619,7 +619,7 @@ func (fr *Frame) execTypeAssert(x *ssa.TypeAssert, st *State, r string) {
 	vc := fr.vc
 	v := fr.val(x.X)
 	at := x.AssertedType
-	if _, isIface := at.Underlying().(*types.Interface); isIface {
+	if isIfaceT(at) {
 		// interface-to-interface: whether the dynamic type implements it is unknown
 		vc.declFun("implements", []Sort{SInt, SInt}, SBool)
 		ok := app("implements", v[0], sInt(int64(fr.eng.tagOf(at))))
